@@ -188,6 +188,15 @@ theorem xml_wellformed_partial (o : XmlOpts) (om : Bool) (ts : List XTok) (hwf :
     ∀ y ∈ emit o om ts, WfOutP y :=
   wfout_aux o ts.length ts (Nat.le_refl _) hwf om
 
+/-- **xml_nesting** (full): element nesting is preserved — if in the input every end tag closes the innermost
+open element under its name, `/>` closes the element just opened and nothing stays open, the same holds for the
+emitted tokens (in particular after collapsing `<a></a>` to `<a/>`). -/
+theorem xml_nesting (o : XmlOpts) (om : Bool) (ts : List XTok) (st : List (List Char))
+    (h : nest st ts = true) : nest st (emit o om ts) = true :=
+  nest_aux o ts.length ts (Nat.le_refl _) om st h
+
+example : nest [] exOk = true ∧ nest [] exJoin = true := by decide
+
 /-- the full statement: additionally the emitted character data never contains `]]>` -/
 def xml_wellformed_full : Prop :=
   ∀ (o : XmlOpts) (ts : List XTok), (∀ x ∈ ts, WfTokP x) → lexShape false ts = true →
